@@ -9,11 +9,29 @@
 //! draw random numbers, so observing does not perturb the schedule.
 
 use std::cell::Cell;
-use std::sync::atomic::{AtomicBool, AtomicIsize, AtomicUsize, Ordering::Relaxed};
-use std::sync::Arc;
+use std::sync::atomic::Ordering::Relaxed;
 use std::time::Duration;
 
-pub use shuttle::sync::mpsc::{RecvError, RecvTimeoutError, SendError, TryRecvError};
+pub use shuttle::sync::mpsc::{RecvError, RecvTimeoutError, SendError, TryRecvError, TrySendError};
+
+// Names that changed code plausibly uses unqualified inside the hooked function (imported at
+// module level from `std::sync`): the hook's block-scoped `use` shadows them with shuttle's
+// controlled equivalents, so that e.g. a Mutex/Condvar or atomic-counter refactor is simulated
+// with scheduling points instead of running on real `std` primitives inside a coroutine.
+pub use shuttle::sync::atomic::{
+    AtomicBool, AtomicI32, AtomicI64, AtomicIsize, AtomicU32, AtomicU64, AtomicUsize,
+};
+pub use shuttle::sync::{Barrier, Condvar, Mutex, MutexGuard, RwLock};
+pub use std::sync::Arc;
+pub mod atomic {
+    pub use shuttle::sync::atomic::*;
+}
+pub mod mpsc {
+    pub use super::{
+        channel, sync_channel, IntoIter, Iter, Receiver, RecvError, RecvTimeoutError, SendError, Sender,
+        SyncSender, TryIter, TryRecvError, TrySendError,
+    };
+}
 
 /// Per-execution probe counters (reset by the simulator before each execution).
 #[derive(Clone, Copy, Debug, Default, PartialEq, Eq)]
@@ -164,9 +182,9 @@ fn sched_point() {
 }
 
 struct Shared {
-    queued: AtomicIsize,
-    senders: AtomicUsize,
-    receiver_waiting: AtomicBool,
+    queued: std::sync::atomic::AtomicIsize,
+    senders: std::sync::atomic::AtomicUsize,
+    receiver_waiting: std::sync::atomic::AtomicBool,
 }
 
 /// `std::sync::mpsc::channel` stand-in.
@@ -174,11 +192,79 @@ pub fn channel<T>() -> (Sender<T>, Receiver<T>) {
     bump(|p| p.channels += 1);
     let (tx, rx) = shuttle::sync::mpsc::channel();
     let shared = Arc::new(Shared {
-        queued: AtomicIsize::new(0),
-        senders: AtomicUsize::new(1),
-        receiver_waiting: AtomicBool::new(false),
+        queued: std::sync::atomic::AtomicIsize::new(0),
+        senders: std::sync::atomic::AtomicUsize::new(1),
+        receiver_waiting: std::sync::atomic::AtomicBool::new(false),
     });
     (Sender { inner: Some(tx), shared: shared.clone() }, Receiver { inner: rx, shared })
+}
+
+/// `std::sync::mpsc::sync_channel` stand-in (bounded; `bound == 0` is a rendezvous channel).
+pub fn sync_channel<T>(bound: usize) -> (SyncSender<T>, Receiver<T>) {
+    bump(|p| p.channels += 1);
+    let (tx, rx) = shuttle::sync::mpsc::sync_channel(bound);
+    let shared = Arc::new(Shared {
+        queued: std::sync::atomic::AtomicIsize::new(0),
+        senders: std::sync::atomic::AtomicUsize::new(1),
+        receiver_waiting: std::sync::atomic::AtomicBool::new(false),
+    });
+    (SyncSender { inner: Some(tx), shared: shared.clone() }, Receiver { inner: rx, shared })
+}
+
+pub struct SyncSender<T> {
+    inner: Option<shuttle::sync::mpsc::SyncSender<T>>,
+    shared: Arc<Shared>,
+}
+impl<T> SyncSender<T> {
+    pub fn send(&self, t: T) -> std::result::Result<(), SendError<T>> {
+        let r = self.inner.as_ref().unwrap().send(t);
+        match &r {
+            Ok(()) => {
+                self.shared.queued.fetch_add(1, Relaxed);
+                bump(|p| p.sends += 1)
+            }
+            Err(_) => bump(|p| p.send_errs += 1),
+        }
+        sched_point();
+        r
+    }
+    pub fn try_send(&self, t: T) -> std::result::Result<(), TrySendError<T>> {
+        let r = self.inner.as_ref().unwrap().try_send(t);
+        match &r {
+            Ok(()) => {
+                self.shared.queued.fetch_add(1, Relaxed);
+                bump(|p| p.sends += 1)
+            }
+            Err(_) => bump(|p| p.send_errs += 1),
+        }
+        sched_point();
+        r
+    }
+}
+impl<T> Clone for SyncSender<T> {
+    fn clone(&self) -> Self {
+        sched_point();
+        bump(|p| p.sender_clones += 1);
+        self.shared.senders.fetch_add(1, Relaxed);
+        let c = SyncSender { inner: self.inner.clone(), shared: self.shared.clone() };
+        sched_point();
+        c
+    }
+}
+impl<T> Drop for SyncSender<T> {
+    fn drop(&mut self) {
+        sched_point();
+        let left = self.shared.senders.fetch_sub(1, Relaxed) - 1;
+        if left == 0 && self.shared.receiver_waiting.load(Relaxed) && self.shared.queued.load(Relaxed) == 0 {
+            bump(|p| p.last_sender_drop_while_recv_waiting += 1);
+        }
+        drop(self.inner.take());
+    }
+}
+impl<T> std::fmt::Debug for SyncSender<T> {
+    fn fmt(&self, f: &mut std::fmt::Formatter<'_>) -> std::fmt::Result {
+        f.write_str("SyncSender { .. }")
+    }
 }
 
 pub struct Sender<T> {
